@@ -435,8 +435,11 @@ func (x *c22kRunner) apply(ev string) []c22Vio {
 					}
 				}
 
-				x.m.forget(j) // the pool has no record of it any more
 			}
+		}
+
+		for _, j := range purged {
+			x.m.forget(j) // the pool has no record of it any more
 		}
 
 		x.lastObs = fmt.Sprintf("clean:n=%d/purged=%d", n, len(purged))
